@@ -30,8 +30,8 @@ def plan(tier, seed):
     return {
         "level": "exploration",
         "rule": "single-threaded: random consumption histories (first/rest/next/seq/count/nth/iteration/doall/take) over 9 kinds of lazy sources with counting producers, throwing cells and "
-        "re-entrant producers; multi-threaded: 6 scenario families (blocking producer + second consumer, sleeping producers, throwing producers, racing walkers, re-entrant producer, mixed "
-        "first/rest/count) x random thread counts, cell counts and delays, each in its own child interpreter. distinct = distinct (source kind, consumer history) or (scenario, parameters, observed "
+        "re-entrant producers; multi-threaded: 7 scenario families (blocking producer + second consumer, sleeping producers, throwing producers, racing walkers, re-entrant producer, mixed "
+        "first/rest/count, nested: consumers entering one inner sequence directly and through lazy-seq / lazy-cat / concat wrappers while its producer is parked) x random thread counts, cell counts and delays, each in its own child interpreter. distinct = distinct (source kind, consumer history) or (scenario, parameters, observed "
         "arrival order); non-trivial = at least two cells demanded.",
         "shards": shards,
         "min_evaluations": 300,
@@ -72,7 +72,7 @@ def child_main(sc):
         with lock:
             calls[i] += 1
             attempt = calls[i]
-        if kind == "blocking" and i == sc.get("block_at", 1) and attempt == 1:
+        if kind in ("blocking", "nested") and i == sc.get("block_at", 1) and attempt == 1:
             in_producer.set()
             gate.wait(15)
         if kind in ("sleeping", "racing", "mixed", "throwing"):
@@ -95,9 +95,27 @@ def child_main(sc):
     the_seq[0] = s
     views = {}
     errors = {}
+    entries = {}
+    if kind == "nested":
+        # consumers enter the shared structure at different points: some walk the inner sequence itself, others reach it through a
+        # wrapper whose producer returns it (lazy-seq / lazy-cat / concat idioms); markers :h / :t tell the views apart
+        H, T = ("cell", "h"), ("cell", "t")
+        mkentry = {
+            "tail": lambda: s,
+            "wrap": b.eval_str("(fn [t] (lazy-seq t))", ns=ns),
+            "wrap2": b.eval_str("(fn [t] (lazy-seq (lazy-seq t)))", ns=ns),
+            "cat-front": b.eval_str("(fn [t h] (lazy-cat [h] t))", ns=ns),
+            "cat-back": b.eval_str("(fn [t x] (lazy-cat t [x]))", ns=ns),
+            "concat-back": b.eval_str("(fn [t x] (concat t [x]))", ns=ns),
+            "cons-front": b.eval_str("(fn [t h] (lazy-seq (cons h t)))", ns=ns),
+        }
+        for i, e in enumerate(sc["entries"]):
+            f = mkentry[e]
+            entries["w%d" % i] = s if e == "tail" else (f(s) if e in ("wrap", "wrap2") else f(s, H if e in ("cat-front", "cons-front") else T))
 
     def walker(name, how):
         view = []
+        s = entries.get(name, the_seq[0])
         try:
             if how == "iter":
                 for x in s:
@@ -135,7 +153,7 @@ def child_main(sc):
     hows = sc["walkers"]
     ths = [threading.Thread(target=walker, args=("w%d" % i, h), daemon=True) for i, h in enumerate(hows)]
     t0 = time.time()
-    if kind == "blocking":
+    if kind in ("blocking", "nested"):
         ths[0].start()
         in_producer.wait(10)
         for t in ths[1:]:
@@ -171,11 +189,19 @@ def worker(spec, out):
         single_thread(out, rnd, spec["n"])
     else:
         for it in range(spec["n"]):
-            fam = ["blocking", "sleeping", "throwing", "racing", "reentrant", "mixed"][it % 6]
+            fam = ["blocking", "sleeping", "throwing", "racing", "reentrant", "mixed", "nested"][it % 7]
             cells = rnd.randint(3, 6)
             sc = {"scenario": fam, "cells": cells, "seed": rnd.getrandbits(32), "source": rnd.choice(["lazy-seq", "lazy-seq", "map"])}
             nw = rnd.randint(2, 4)
-            if fam == "blocking":
+            if fam == "nested":
+                sc["source"] = "lazy-seq"
+                sc["block_at"] = rnd.choice([0, 0, 1, rnd.randrange(cells)])
+                sc["hold"] = rnd.choice([0.01, 0.05, 0.2])
+                sc["entries"] = [rnd.choice(["wrap", "wrap2", "cat-front", "cat-back", "concat-back", "cons-front", "tail"]) for _ in range(nw)]
+                if "tail" not in sc["entries"][1:]:
+                    sc["entries"][1] = "tail"
+                sc["walkers"] = [rnd.choice(["iter", "first-rest", "next", "doall"]) for _ in range(nw)]
+            elif fam == "blocking":
                 sc["block_at"] = rnd.randrange(cells)
                 sc["hold"] = rnd.choice([0.01, 0.05, 0.2])
                 sc["walkers"] = [rnd.choice(["iter", "first-rest", "next", "doall"]) for _ in range(nw)]
@@ -235,8 +261,14 @@ def run_thread_scenario(out, sc):
             out.incon("child interpreter timed out once but not 3/3", case)
         return
     if st == "crash":
+        # a child that died: a verdict only if it dies again in one of two further runs (an overloaded machine makes children
+        # die in ways that say nothing about the sequence, e.g. while still booting when the armed faulthandler fires)
         out.ev(("threads", sc["scenario"], "crash"))
-        out.violation(f"C06/harness-or-interpreter-crash/{sc['scenario']}", {"scenario": sc, "detail": str(res)[:600]}, case)
+        reps = [run_child(sc, timeout=60)[0] for _ in range(2)]
+        if "crash" in reps:
+            out.violation(f"C06/harness-or-interpreter-crash/{sc['scenario']}", {"scenario": sc, "detail": str(res)[:600], "reproduced": reps}, case)
+        else:
+            out.incon("child interpreter died once (%s) and not again in 2 further runs" % str(res)[-200:], case)
         return
     n = sc["cells"]
     calls, fails, views, errors, alive = res["calls"], res["fails"], res["views"], res["errors"], res["alive"]
@@ -251,9 +283,13 @@ def run_thread_scenario(out, sc):
         if calls[i] > 1 + fails[i]:
             out.violation(f"C06/at-most-once/producer-ran-{'again-after-success' if True else ''}/{sc['scenario']}", {"scenario": sc, "cell": i, "calls": calls, "failed_attempts": fails}, case)
             return
+    cells_want = want
     for name, view in views.items():
         how = sc["walkers"][int(name[1:])]
         err = errors.get(name)
+        if sc["scenario"] == "nested":
+            e = sc["entries"][int(name[1:])]
+            want = ([["cell", "h"]] if e in ("cat-front", "cons-front") else []) + cells_want + ([["cell", "t"]] if e in ("cat-back", "concat-back") else [])
         if how == "count":
             if not err and view != [["count", n]]:
                 out.violation(f"C06/agreement/count-differs/{sc['scenario']}", {"scenario": sc, "view": view}, case)
